@@ -595,6 +595,9 @@ func c14CuratedPool() []c14PoolEntry {
 	// ints around 0, +-1, +-(2^53-1), 2^53
 	add(true, c14CInt(0), c14CInt(1), c14CInt(-1), c14CInt(2), c14CInt(c14Two53-1), c14CInt(-(c14Two53 - 1)), c14CInt(c14Two53))
 	add(false, c14CInt(-2), c14CInt(3), c14CInt(7), c14CInt(-c14Two53), c14CInt(c14Two53-2))
+	// ints that are different but round to the same float64 (seeded/C14-h compared sort keys as float64): neighbours above 2^53
+	// and at both ends of the int64 range
+	add(false, c14CInt(c14Two53+1), c14CInt(math.MaxInt64), c14CInt(math.MaxInt64-1), c14CInt(math.MinInt64), c14CInt(math.MinInt64+1))
 	// floats: +-0, infinities, NaN, values equal and adjacent to ints, halves
 	add(true, c14CFloat(0), c14CFloat(math.Copysign(0, -1)), c14CFloat(1), c14CFloat(-1), c14CFloat(0.5), c14CFloat(1.5), c14CFloat(2),
 		c14CFloat(float64(c14Two53-1)), c14CFloat(float64(c14Two53)), c14CFloat(math.Inf(1)), c14CFloat(math.Inf(-1)), c14CFloat(math.NaN()))
